@@ -32,7 +32,7 @@ enum { K_LETTERS, K_QUERIES, K_ANSWERS, K_DUPS, K_CACHE_EXPECTED, K_CACHE_SAME, 
 
 /* ---------------------------------------------------------------- alphabet */
 enum { L_PING, L_DATA_FIRST, L_DATA_LAST, L_DUP, L_TUN, L_TIME, L_RAWLOGIN, L_LAZY, L_SETFRAG, L_RELOGIN, L_RAWPING, L_RAWDATA };
-enum { V_SAME, V_NEWID, V_NEWSRC, V_UPPER };
+enum { V_SAME, V_NEWID, V_NEWSRC, V_UPPER, V_OTHERTYPE };
 typedef struct letter { int kind, a, b; char name[40]; } letter;
 static letter LT[128]; static int nlt, nlt_all;      /* letters [nlt, nlt_all) are used by warm-ups only */
 static void addl(int kind, int a, int b, const char *fmt, ...)
@@ -79,6 +79,9 @@ static void mk_alphabet(void)
 		if (KS[k] == 2 && v != V_SAME && v != V_NEWID) continue;
 		addl(L_DUP, KS[k], v, "redeliver(%d back,%s)", KS[k], VN[v]);
 	}
+	/* the same name asked with another record type (NULL <-> TXT), fresh id, from the second port: not a repeat but a query of its own,
+	 * which must get its own answer with its own type */
+	if (!is16) for (int k = 0; k < 2; k++) addl(L_DUP, k, V_OTHERTYPE, "redeliver(%d back,other record type)", k);
 	/* C16: every query the server can still remember (30 pings / 15 data): enabled once the session is that old,
 	 * i.e. in the warmed-up start states */
 	if (is16) for (int k = 5; k < 30; k++) { addl(L_DUP, k, V_SAME, "redeliver(%d back,same)", k); addl(L_DUP, k, V_NEWID, "redeliver(%d back,newid)", k); }
@@ -295,6 +298,13 @@ static int apply(int li)
 		const struct sockaddr_storage *src = &SRC_A;
 		if (L->b == V_NEWID || L->b == V_NEWSRC) { int id = ++M.idseq; pkt[0] = id >> 8; pkt[1] = id; }
 		if (L->b == V_NEWSRC) src = &SRC_A2;
+		if (L->b == V_OTHERTYPE) {
+			int id = ++M.idseq; pkt[0] = id >> 8; pkt[1] = id; src = &SRC_A2;
+			int p = 12; while (p < plen && pkt[p]) p += 1 + pkt[p];
+			if (p + 2 >= plen) return 1;
+			int t = (pkt[p + 1] << 8) | pkt[p + 2], nt = t == 10 ? 16 : 10;
+			pkt[p + 1] = nt >> 8; pkt[p + 2] = nt;
+		}
 		if (L->b == V_UPPER) { for (int p = 12; pkt[p]; p += 1 + pkt[p]) { for (int k = 1; k <= pkt[p]; k++) pkt[p + k] = toupper(pkt[p + k]); break; } }
 		xp_count(K_DUPS, 1);
 		get_pos(&before);
